@@ -576,3 +576,42 @@ pub fn dbg_snap(s: &mut Src, sh: &Shape) {
     }
     forget(r);
 }
+
+/// batch_append on: an append for `from` is already queued in `msgs` (entries 1..=3 from prev 0);
+/// a delayed ack of index 1 flips the peer from Probe to Replicate and rewinds next_idx to 2.
+/// The entries sent next (2..) overlap the queued ones: they must go into a message of their
+/// own, never be glued onto the queued one (C05 / C13: every append is a contiguous slice).
+pub fn appresp_batch_step(s: &mut Src, sh: &Shape, from: u64) {
+    use raft::eraftpb::Entry;
+    let (mut r, g) = mk_raft(s, sh);
+    let mut pv = r.verif_private();
+    pv.batch_append = true;
+    r.verif_set_private(&pv);
+    // the queued append: prev (0, 0), entries 1..=last with the log's terms
+    let mut q = Message::default();
+    q.set_msg_type(MessageType::MsgAppend);
+    q.from = ME;
+    q.to = from;
+    q.term = r.term;
+    q.index = g.base;
+    q.log_term = g.snap_term;
+    q.commit = g.committed;
+    let mut i = g.base + 1;
+    while i <= g.last() {
+        let mut e = Entry::default();
+        e.index = i;
+        e.term = g.term_at(i).unwrap();
+        q.entries.push(e);
+        i += 1;
+    }
+    r.msgs.push(q);
+    let mut m = msg(MessageType::MsgAppendResponse, from, r.term);
+    m.index = g.base + 1;
+    let res = r.step(m);
+    assert!(res.is_ok());
+    assert!(r.state == StateRole::Leader);
+    check_leader_msgs(&r, sh);
+    check_progress(&r, sh);
+    vcover!(r.msgs.len() >= 2, "a second message was needed");
+    forget(r);
+}
